@@ -158,7 +158,8 @@ type acase struct {
 type input struct {
 	Cases   []acase `json:"cases"`
 	Verbose bool    `json:"verbose"`
-	// Corrupt is the binding self-test: "sat" empties the reference sat sets, "verdict" flips must-reject to must-accept
+	// Corrupt is the binding self-test: "sat" empties the reference sat sets, "verdict" turns the must-accept of the
+	// unmutated submission into must-reject
 	Corrupt string `json:"corrupt"`
 }
 
@@ -743,7 +744,10 @@ func runCase(c acase, in input) (res result) {
 					viol(violation{Kind: "mapping-format", Shape: class, Detail: fmt.Sprintf("%s: format %s for a %s credential", m.Id, m.Format, want)})
 				}
 			} else {
-				viol(violation{Kind: "mapping-path", Shape: class, Detail: fmt.Sprintf("%s: path %q does not address a selected credential", m.Id, m.Path)})
+				// another path syntax is not forbidden by the property: the verifier decides (WalletVerifierAgree below)
+				res.Drift = append(res.Drift, fmt.Sprintf("Match: mapping path %q of %s is not $.verifiableCredential[i]", m.Path, m.Id))
+				mappedSet[m.Id] = true
+				continue
 			}
 			realMap = append(realMap, mapping{ID: m.Id, C: cn})
 			// WalletSelectsOnlySatisfying: the mapped credential is in the reference sat set of the descriptor
@@ -801,7 +805,8 @@ func runCase(c acase, in input) (res result) {
 				}
 			}
 			if !used {
-				viol(violation{Kind: "unmapped-credential", Shape: class, Detail: name(v)})
+				// over-disclosure is not part of C12
+				res.Drift = append(res.Drift, "Match: selected credential "+name(v)+" is not referenced by any mapping")
 			}
 		}
 	}
@@ -981,8 +986,8 @@ func runCase(c acase, in input) (res result) {
 			s.DescriptorMap = append(s.DescriptorMap, concreteEntry(e))
 		}
 		must := sb.Must
-		if in.Corrupt == "verdict" && must == "reject" {
-			must = "accept"
+		if in.Corrupt == "verdict" && must == "accept" {
+			must = "reject" // self-test: the expectation of the correct submission is corrupted
 		}
 		o, _, err := validate(sb.Shape, s)
 		if err != nil {
